@@ -28,7 +28,7 @@ man = {
     ],
     "checks": [],
     "not_applicable": [],
-    "notes": "Technique family: machine-checked proof in Lean 4. See DESIGN.md. known_findings.txt lists fixed and open findings (demonstrations of two of them on the real crate: findings/); seeded/ holds 190 independent seeded changes with the checks that report each.",
+    "notes": "Technique family: machine-checked proof in Lean 4. See DESIGN.md. known_findings.txt lists fixed and open findings (demonstrations of two of them on the real crate: findings/); seeded/ holds 209 independent seeded changes with the checks that report each.",
 }
 for pid in ALL:
     if pid in PROPS:
